@@ -162,7 +162,7 @@ func ruleCommitDiscipline(c *Ctx, r *Report) {
 					atomAssume{mTypeAssertOK("pkg/protocol/handshake.MessageHelloVerifyRequest"), vBool(false)})
 			}
 			w := &Walk{Fn: fn, Assume: assumeAll(as...)}
-			w.Visit = func(x ssa.Instruction, _ map[*ssa.Phi]Val) bool { return !commits[x] }
+			w.Visit = func(x ssa.Instruction, _ Env) bool { return !commits[x] }
 			w.FromEntry()
 			bad := ""
 			for _, ro := range w.Returns {
